@@ -18,6 +18,7 @@ import (
 	"io"
 	"math"
 	"runtime"
+	"strings"
 	"sync"
 	"sync/atomic"
 	"time"
@@ -42,6 +43,7 @@ type Worker struct {
 	PerCycle int     `json:"percycle,omitempty"` // cycle: increments per cycle
 	Tagged   bool    `json:"tagged,omitempty"`   // cycle: identity derived by Tagged, not SubScope
 	Child    bool    `json:"child,omitempty"`    // cycle: also record on a child of the subscope (closed with it? no: children are independent scopes; closed explicitly first)
+	Gauge    bool    `json:"gauge,omitempty"`    // cycle: also update a gauge of the subscope (sole updater) before each Close
 	Passes   int     `json:"passes,omitempty"`   // pass
 	Values   []pbt.F `json:"values,omitempty"`   // gauge
 }
@@ -110,7 +112,8 @@ func Gen(t *rapid.T, p Profile) Case {
 				PerCycle: rapid.IntRange(1, 4).Draw(t, "percycle"),
 				Tagged:   rapid.Bool().Draw(t, "tagged"),
 				Hist:     rapid.IntRange(0, 3).Draw(t, "hist") == 0,
-				Child:    rapid.IntRange(0, 3).Draw(t, "child") == 0})
+				Child:    rapid.IntRange(0, 3).Draw(t, "child") == 0,
+				Gauge:    rapid.IntRange(0, 2).Draw(t, "cgauge") == 0})
 			ident++
 		default:
 			w := Worker{Kind: "gauge", Target: c.NGauges}
@@ -144,6 +147,14 @@ func spinFor(d time.Duration) {
 	for time.Since(t0) < d {
 		runtime.Gosched()
 	}
+}
+
+type gstate struct {
+	mu      sync.Mutex
+	started map[uint64]bool
+	nstart  int
+	last    uint64
+	any     bool
 }
 
 type total struct {
@@ -222,17 +233,13 @@ func Run(c Case) (pbt.Outcome, error) {
 		return a
 	}
 	// gauge bookkeeping: values whose Update has started / the last value, per gauge
-	type gstate struct {
-		mu      sync.Mutex
-		started map[uint64]bool
-		nstart  int
-		last    uint64
-		any     bool
-	}
 	gst := make([]*gstate, c.NGauges)
 	for i := range gst {
 		gst[i] = &gstate{started: map[uint64]bool{}}
 	}
+	// gauges of cyclers: name -> state (one cycler per identity, so one updater per gauge)
+	var cgMu sync.Mutex
+	cgauges := map[string]*gstate{}
 	var panics atomic.Int32
 	var panicMsg atomic.Value
 	var wg sync.WaitGroup
@@ -292,6 +299,27 @@ func Run(c Case) (pbt.Outcome, error) {
 					if w.Hist {
 						sub.Histogram("h", tally.ValueBuckets{0, 1}).RecordValue(float64(k % 3))
 						ha.add(1)
+					}
+					if w.Gauge {
+						gname := strings.Replace(cname, "c", "g", 1)
+						if !w.Tagged {
+							gname = name + ".g"
+						}
+						cgMu.Lock()
+						st := cgauges[gname]
+						if st == nil {
+							st = &gstate{started: map[uint64]bool{}}
+							cgauges[gname] = st
+						}
+						cgMu.Unlock()
+						v := float64(k*100 + w.Target + 1)
+						st.mu.Lock()
+						st.started[math.Float64bits(v)] = true
+						st.nstart++
+						st.last = math.Float64bits(v)
+						st.any = true
+						st.mu.Unlock()
+						sub.Gauge("g").Update(v)
 					}
 					if w.Child {
 						kid := sub.SubScope("k")
@@ -384,14 +412,18 @@ func Run(c Case) (pbt.Outcome, error) {
 				}
 			}
 		case rec.KGauge:
-			n := e.Name
+			n := e.Name + tagSuffix(e.Tags)
 			lastGauge[n] = math.Float64bits(e.F)
 			gaugeDeliveries[n]++
 			if e.Seq > closeRet {
 				errs.Addf("gauge delivered after the end of activity and one full pass: %v", e)
 			}
 			var gi int
-			if _, err := fmt.Sscanf(n, "g%d", &gi); err == nil && gi < len(gst) {
+			if st := cgauges[n]; st != nil {
+				if !st.started[math.Float64bits(e.F)] {
+					errs.Addf("gauge %s: delivered value %v (bits %016x) was never passed to Update", n, e.F, math.Float64bits(e.F))
+				}
+			} else if _, err := fmt.Sscanf(n, "g%d", &gi); err == nil && gi < len(gst) && !strings.Contains(n, ".") && !strings.Contains(n, "|") {
 				if !gst[gi].started[math.Float64bits(e.F)] {
 					errs.Addf("gauge %s: delivered value %v (bits %016x) was never passed to Update", n, e.F, math.Float64bits(e.F))
 				}
@@ -421,6 +453,20 @@ func Run(c Case) (pbt.Outcome, error) {
 		}
 		if got, ok := lastGauge[n]; !ok || got != st.last {
 			errs.Addf("gauge %s: after updates stopped and a full report ran, the most recent delivered value has bits %016x (delivered=%v), last update %016x", n, got, ok, st.last)
+		}
+	}
+	for n, st := range cgauges {
+		if gaugeDeliveries[n] > st.nstart {
+			errs.Addf("gauge %s: %d deliveries for %d updates", n, gaugeDeliveries[n], st.nstart)
+		}
+		if c.Sanitize && c.Shards != 1 && strings.Contains(n, "|id=s_") {
+			// two spellings that merely SANITIZE to one identity hash to different registry shards and
+			// are then two scope objects (C05 promises one scope only for inputs the sanitizer leaves
+			// unchanged): which of their gauges is reported last is not defined
+			continue
+		}
+		if got, ok := lastGauge[n]; !ok || got != st.last {
+			errs.Addf("gauge %s (updated once per obtain/update/Close cycle by the goroutine that closes its scope): after the last Close and a full report the most recent delivered value has bits %016x (delivered=%v), last update %016x", n, got, ok, st.last)
 		}
 	}
 	out.NonTrivial = passesDuring > 0
